@@ -272,8 +272,10 @@ class Printer:
             opts = _opts(sx, st, n.get('opts', ()))
             if sx == 'epfs':
                 cfmt = n.get('cfmt', 's')
+                # (a variable called 'var' needs the long form: the short
+                # one, %(var opts)s, is the var tag itself)
                 if n['ref']['r'] == 'name' and not attrs[0].startswith(
-                        'name='):
+                        'name=') and attrs[0] != 'var':
                     self.emit('tag', '%%(%s%s)%s' % (
                         attrs[0], _join_attrs(sx, st, opts) if opts else '',
                         cfmt), ('inline', 'var'))
